@@ -285,13 +285,17 @@ def _cat(path):
 ROOT_FREE = ("statistics", "diagonal_statistics", "avg_grad", "count", "exponents")
 
 
-def _kappa(stats, eps, compressed=False):
+def _kappa(stats, eps, rank=0, fd=False):
     """conditioning factor of TOL for one list of statistics: worst condition number of the ridge-regularised
-    statistics; for low-rank (compressed / frequent-directions) preconditioners, which store individual eigenvectors,
-    also 10x the worst relative eigenvalue gap lambda_max / min_i (lambda_{i+1} - lambda_i): a (near-)degenerate
-    eigenvalue makes the stored eigenvector arbitrary within its eigenspace (C10's "numerical subspace separation")."""
+    statistics. Low-rank preconditioners store individual eigenvectors of the statistic (`_low_rank_root`: the |rank|
+    LARGEST eigen-directions for rank > 0, the |rank| SMALLEST for rank < 0; statistics of size <= |rank| + 2 take the
+    full root): a (near-)degenerate eigenvalue at the retained end makes the stored eigenvector arbitrary within its
+    eigenspace (C10's spectral-gap caveat), so the factor also covers 10 * lambda_max / (smallest gap among the retained
+    eigenvalues and between them and the first elided one). Frequent directions decompose the sketch, not the stored
+    statistic: there every consecutive gap counts (conservative)."""
     import numpy as np
     k = 1.0
+    r = abs(rank)
     for S in stats:
         S = np.asarray(S, np.float64)
         if S.size == 0 or not np.isfinite(S).all():
@@ -304,15 +308,18 @@ def _kappa(stats, eps, compressed=False):
             k = max(k, (lmax + ridge) / (lmin + ridge))
         elif lmax > 0:
             k = float("inf")
-        if compressed and len(w) > 1 and lmax > 0:
-            gap = float(np.min(np.diff(w)))
+        if r and len(w) > r + 2 and lmax > 0:
+            gaps = np.diff(w)
+            if not fd:
+                gaps = gaps[len(w) - r - 1:] if rank > 0 else gaps[:r]
+            gap = float(np.min(gaps))
             k = max(k, 10.0 * lmax / gap) if gap > 0 else float("inf")   # x10: observed noise reached 0.46 of lmax/gap
     return k
 
 
-def _conds(stats_by_param, eps, compressed):
+def _conds(stats_by_param, eps, rank, fd=False):
     """parameter name -> conditioning factor; "_max" for leaves that belong to no single parameter."""
-    out = {n: _kappa(ss, eps, compressed) for n, ss in stats_by_param.items()}
+    out = {n: _kappa(ss, eps, rank, fd) for n, ss in stats_by_param.items()}
     out["_max"] = max(out.values(), default=1.0)
     return out
 
@@ -482,7 +489,7 @@ def _jit_record(opt, params, grads):
     return rec
 
 
-def _compare_run(ref, cand, D, eps, compressed, lead_ref, lead_cand, tally, skip_paths=None, slack=1.0):
+def _compare_run(ref, cand, D, eps, lowrank, lead_ref, lead_cand, tally, skip_paths=None, slack=1.0):
     """ref/cand: records over steps. lead_*: whether the arrays carry a leading device axis.
     Returns (fails, first_flip_step). A Newton branch flip of one statistic excuses, from that step on, only the
     leaves of the parameter that owns it (and, in sharded mode, the global preconditioner rows); every other
@@ -491,13 +498,18 @@ def _compare_run(ref, cand, D, eps, compressed, lead_ref, lead_cand, tally, skip
     fails = []
     excused = set()
     flip_step = None
+    conds = {}
     for t, (r, c) in enumerate(zip(ref, cand)):
         rp = [p for p, _ in r["flat"]]
         cp = [p for p, _ in c["flat"]]
         if rp != cp:
             fails.append(f"step {t}: state layout differs ({len(rp)} vs {len(cp)} leaves)")
             return fails, flip_step
-        conds = _conds(r.get("stats", {}), eps, compressed)
+        # the state at step t depends on every root computed so far (a preconditioner stays in use until the next refresh,
+        # momentum accumulates): the conditioning factor of a parameter is the worst one over steps 0..t
+        now = _conds(r.get("stats", {}), eps, lowrank[0], lowrank[1])
+        for kk, vv in now.items():
+            conds[kk] = max(conds.get(kk, 1.0), vv)
         tally["kappa_max"] = max(tally.get("kappa_max", 1.0), min(conds["_max"], 1e300))
         for d in range(D if lead_cand else 1):
             refl = [(p, (a[0] if lead_ref else a)) for p, a in r["flat"]]
@@ -585,11 +597,11 @@ def _run_pmap_task(task):
                 rec = _jit_record(_build(cfg, "replicated"), params, grads)
                 # the replicated program has no device axis; its metrics pytree is identical
                 # a differently compiled whole program (no collectives): tolerances x10
-                fails, flip = _compare_run([{"flat": b["flat"], "stats": b["stats"]} for b in base], rec, 1, cfg["eps"], bool(cfg["rank"]),
+                fails, flip = _compare_run([{"flat": b["flat"], "stats": b["stats"]} for b in base], rec, 1, cfg["eps"], (cfg["rank"], cfg["fd"]),
                                            True, False, tally, slack=10.0)
             else:
                 rec = _pmap_record(_build(cfg, "pmap"), params, grads, D, names)
-                fails, flip = _compare_run(base, rec, D, cfg["eps"], bool(cfg["rank"]), True, True, tally)
+                fails, flip = _compare_run(base, rec, D, cfg["eps"], (cfg["rank"], cfg["fd"]), True, True, tally)
                 if not fails:
                     sm = {}
                     for d, P in rec[-1]["precs"].items():
@@ -690,7 +702,7 @@ def _run_sharded_task(task):
         _FRAC[0], _FRAC[1] = 0.0, ""
         try:
             rec, info = _sharded_record(cfg, params, grads, names, npjit, meshD, N)
-            fails, flip = _compare_run(base, rec, 1, cfg["eps"], bool(cfg["rank"]), False, False, tally)
+            fails, flip = _compare_run(base, rec, 1, cfg["eps"], (cfg["rank"], cfg["fd"]), False, False, tally)
         except kit.InfraError:
             raise
         except Exception as e:  # noqa: BLE001
@@ -1177,7 +1189,7 @@ def _run_rest(ctx):
     ctx.assumptions += [
         "decision TOL: relative 1e-6 (Frobenius, per leaf) for leaves that do not pass through an inverse root (statistics, diagonal "
         "statistics, counters); 1e-6 * max(1, kappa) for root-dependent leaves, kappa = worst condition number of the ridge-regularised "
-        "statistics of the owning parameter at that step (TOL(eps*kappa) of DESIGN 2.3), for low-rank (compressed / frequent-directions) kinds also 10 * lambda_max / smallest eigenvalue gap (a degenerate eigenvalue makes the stored eigenvector arbitrary: observed 29% legit difference); error metrics absolute 1e-4 * max(1, kappa/10), the power-iteration estimate max_eigen_value relative 1e-3, final_error_ratio (a ratio of rounding-level errors) only recorded; int16 payloads of quantized "
+        "statistics of the owning parameter at that step (TOL(eps*kappa) of DESIGN 2.3), for low-rank kinds also 10 * lambda_max / smallest eigenvalue gap at the retained end of the spectrum (top |rank| eigenvalues and the cut for rank > 0, bottom for rank < 0, every gap for frequent directions), worst over the steps so far because a preconditioner stays in use until the next refresh and the momentum carries it (a degenerate eigenvalue makes the stored eigenvector arbitrary within its eigenspace: observed 29% legit difference of the packed root, both packed roots being valid); error metrics absolute 1e-4 * max(1, kappa/10), the power-iteration estimate max_eigen_value relative 1e-3, final_error_ratio (a ratio of rounding-level errors) only recorded; int16 payloads of quantized "
         "leaves may differ by one unit (rounding boundary, counted; it excuses the owning parameter from that step on, like a branch flip); bitwise equality is recorded per leaf category in the distribution",
         "comparisons whose tolerance exceeds 1e-2 are counted as `weak`",
         "a Newton branch flip (iteration count / total_retries of a statistic differ between the two runs) excuses, from that step on, "
